@@ -262,6 +262,7 @@ namespace c11
   // digits): relative error <= 5e-6 per number (DESIGN 2.11).  Integers, strings, booleans, shapes: exact.
   //   key "rot"  : entries of the Extrude rotation matrix; the file stores three angles in revolutions with 6
   //                digits => absolute error per entry <= 3 * 2*pi*5e-6*0.5 < 5e-5
+  //   keys "origin"/"offset" of an Extrude chart: absolute 3.4e-6 (the writer omits vectors with |v|^2 <= eps^0.7)
   //   key "dom"  : Circle parameter interval [l,r]; the chart stores (-l, 2pi/(r-l)) and the writer reconstructs
   //                r = l + 2pi/b, so r carries an absolute error of a few ulp of (|l|+|r|) on top of the printed one
   // ------------------------------------------------------------------------------------------------------------
@@ -293,6 +294,9 @@ namespace c11
         if(a.o[k].first != b.o[k].first) { why = path + ": key '" + a.o[k].first + "' != '" + b.o[k].first + "'"; return false; }
         double at = abs_tol;
         if(a.o[k].first == "rot") at = 5e-5;
+        // Extrude::write() leaves out origin/offset whose squared norm is <= eps^0.7 (deliberate "is zero" test of the writer):
+        // components below sqrt(eps^0.7) = 3.3e-6 may come back as 0
+        if(a.o[k].first == "origin" || a.o[k].first == "offset") at = 3.4e-6;
         if(a.o[k].first == "dom" && a.o[k].second.a.size() == 2) { double l = 0, r = 0; jnum(a.o[k].second.a[0], l); jnum(a.o[k].second.a[1], r); at = 1e-12 * (std::fabs(l) + std::fabs(r)); }
         if(!jcmp(a.o[k].second, b.o[k].second, path + "/" + a.o[k].first, why, at)) return false;
       }
